@@ -5,7 +5,7 @@ import signac.project as P
 from vflib.hutil import pick, reached, part_ok, kf_filter, spy, tier, fresh_path, nt, ci, cb
 
 CODE = ["signac.project.Project._job_dirs", "signac.project.JOB_ID_REGEX", "signac.job.Job (init, document, clear, reset, remove, statepoint edits/assignment, update_statepoint, move, copy/pickle support)", "signac.job._StatePointDict._save", "signac.project.Project (open_job, clone, update_cache, check, __len__/__iter__/__contains__)"]
-BOUNDS = {"histories": "closed universe {a:0|1} x {b absent|0}; initial workspace = 3 subsets (quick, handles on {a:0}/{a:1}) / 4 subsets x with/without document+file x every unordered pair of handle state points (thorough); two independent handles (different state points) plus shallow copies; 30 operation instances; history length <= 2 (quick, thorough) / 3 (thorough, from one initial state); two projects; after EVERY step: ids/state points/documents/files through a fresh session == model, check() passes, directory name == hash of its state point file, len/iter/contains agree, no temp/backup files, live handles describe their job", "listing": "E3: all strings (unbounded length) over z3's character sort; E1: directory names of length in {0,1,31,32,33,40} built from a fill character, one deviating character at a position in {0,1,16,30,31,32} and a last character, each from {a,0,g,.,A}"}
+BOUNDS = {"histories": "closed universe {a:0|1} x {b absent|0}; initial workspace = 3 subsets (quick, handles on {a:0}/{a:1}) / 4 subsets x with/without document+file x every unordered pair of handle state points (thorough); two independent handles (different state points) plus shallow copies; 31 operation instances; history length <= 2 (quick, thorough) / 3 (thorough, from one initial state); two projects; after EVERY step: ids/state points/documents/files through a fresh session == model, check() passes, directory name == hash of its state point file, len/iter/contains agree, no temp/backup files, live handles describe their job", "listing": "E3: all strings (unbounded length) over z3's character sort; E1: directory names of length in {0,1,31,32,33,40} built from a fill character, one deviating character at a position in {0,1,16,30,31,32} and a last character, each from {a,0,g,.,A}"}
 OUTSIDE = ["universes with more keys / values / nesting in the history harness (nested edits: C04)", "H5 stores (h5py not installed)", "handles pickled into another process (in-process pickle round trips: C04)", "histories longer than 3"]
 STUBS = ["os.listdir of the workspace returns the symbolic name (E1 listing harness)"]
 ASSUMPTIONS = []
@@ -69,7 +69,8 @@ OPS = [("init", ()), ("doc_set", ("k", 1)), ("doc_del", ("k",)), ("put", ("f", b
        ("sp_set", ("a", 0)), ("sp_set", ("a", 1)), ("sp_set", ("b", 0)), ("sp_del", ("b",)), ("sp_assign", ({"a": 1},)), ("sp_assign", ({"a": 0, "b": 0},)), ("sp_assign", ({"a": 0},)),
        ("sp_update", ({"b": 0}, False)), ("sp_update", ({"a": 1}, False)), ("sp_update", ({"a": 1}, True)), ("sp_update", ({"b": 0, "a": 1}, False)), ("sp_update", ({"b": 0, "a": 1}, True)), ("move", ("/q",)), ("clone", ("/q",)), ("update_cache", ()),
        ("copy", ("copy",)), ("reopen", (False,)), ("reopen", (True,)), ("doc_reset", ({"r": [1, {"s": None}]},)), ("restart", ()),
-       ("sp_assign_bad", ({"a": 1, "b.c": 3}, "InvalidKeyError")), ("sp_assign_bad", ({"b": 0, 1: 1}, "KeyTypeError"))]
+       ("sp_assign_bad", ({"a": 1, "b.c": 3}, "InvalidKeyError")), ("sp_assign_bad", ({"b": 0, 1: 1}, "KeyTypeError")),
+       ("remove_reopen", ())]     # remove the job, drop the handle, and ask the SAME session for the job by id again (served from its state point cache)
 NOP = len(OPS)
 
 
@@ -99,6 +100,20 @@ def _hist_case(mask, payload, i0, i1, steps, byid=0):
                 s.restart("/p")
                 s.restart("/q")
                 continue
+            elif op == "remove_reopen":
+                try:
+                    h.jobs[-1].statepoint()      # the session has seen the job's state point (a by-id handle loads and registers it)
+                    h.knows = True
+                except Exception:  # noqa
+                    pass
+                if not s.apply(slot, "remove"):
+                    problems.append((n, "outcome", s.errors[-1]))
+                    break
+                try:
+                    job = s.pr[h.path].open_job(id=refs.canon_id(h.sp))
+                    s.handles[slot] = ws.Handle(job, h.sp, h.path, knows=job._cached_statepoint is not None)
+                except KeyError:
+                    pass          # the session does not know the id any more: nothing to re-open
             else:
                 if op == "move" and h.path == "/q":
                     args = ("/p",)
@@ -160,7 +175,7 @@ def h_hist__reach(mask: int, payload: int, i0: int, i1: int, s0: int, o0: int, s
 
 HARNESSES = [
     dict(name="h_listing", twin="h_listing__reach", timeout=(300, 600), parts=(6, 6)),
-    dict(name="h_hist", twin="h_hist__reach", timeout=(900, 3000), parts=(30, 30)),
+    dict(name="h_hist", twin="h_hist__reach", timeout=(900, 3000), parts=(31, 31)),
 ]
 
 
